@@ -11,13 +11,20 @@
 (***************************************************************************)
 EXTENDS Paging, TLC, Json
 
-CONSTANT AllVariants   \* TRUE: every scenario x every variant; FALSE: one variant per scenario, rotating
+CONSTANTS AllVariants,   \* TRUE: every single-iteration scenario x every variant; FALSE: one variant each, rotating
+          MultiEvery,    \* one scenario in MultiEvery is also run with re-execution plans ...
+          MultiPlans     \* ... this many of them (rotating through PlanSeq)
 
 VARIABLE variant
 
 Preps == <<"query", "exec0", "exec2">>
-Variants == {[prep |-> Preps[i], skip |-> k] : i \in 1 .. 3, k \in {0, 1}}
-VariantNo(i) == [prep |-> Preps[(i % 3) + 1], skip |-> (i \div 3) % 2]
+\* rebind: the caller calls q.Bind(values...) (and PageState(s) again in manual mode) before executions 2, 3
+Variants == {[prep |-> Preps[i], skip |-> k, rebind |-> 0] : i \in 1 .. 3, k \in {0, 1}}
+VariantNo(i) == [prep |-> Preps[(i % 3) + 1], skip |-> (i \div 3) % 2, rebind |-> 0]
+
+\* the same Query value executed two or three times: after a complete iteration, after stopping early
+PlanSeq == << <<-1, -1>>, <<0, -1>>, <<1, -1>>, <<2, -1, -1>>, <<-1, 1, -1>>, <<-1, -1, -1>> >>
+GenPlans == {<<-1>>} \cup {PlanSeq[i] : i \in 1 .. Len(PlanSeq)}
 
 RECURSIVE SumOf(_)
 SumOf(sq) == IF sq = <<>> THEN 0 ELSE Head(sq) + SumOf(Tail(sq))
@@ -25,20 +32,31 @@ RECURSIVE MaxOfSeq(_)
 MaxOfSeq(sq) == IF sq = <<>> THEN 0 ELSE Max2(Head(sq), MaxOfSeq(Tail(sq)))
 KindNo(k) == CASE k = "Scan" -> 0 [] k = "Scanner" -> 1 [] k = "MapScan" -> 2 [] OTHER -> 3
 Rot(sc) == (SumOf(sc.pages) * 5 + Len(sc.pages) + sc.q + KindNo(sc.kind) * 2 + sc.fail * 3 + sc.start) % 6
+Rot2(sc) == SumOf(sc.pages) * 7 + Len(sc.pages) * 3 + sc.q + KindNo(sc.kind) * 5 + sc.fail * 2 + sc.start
 
 \* any page size at least as large as the largest page (the scripted node never sends more)
 SizeOf(sc) == Max2(1, MaxOfSeq(sc.pages)) + (Len(sc.pages) % 2) * 100
 
+VariantsFor(sc) ==
+  IF Len(sc.plan) = 1 THEN (IF AllVariants THEN Variants ELSE {VariantNo(Rot(sc))})
+  ELSE IF Rot2(sc) % MultiEvery = 0
+            /\ \E j \in 0 .. MultiPlans - 1 : sc.plan = PlanSeq[((Rot2(sc) \div MultiEvery + j * 3) % Len(PlanSeq)) + 1]
+       THEN {[VariantNo(Rot2(sc) \div 2) EXCEPT !.rebind = (Rot2(sc) \div 3) % 2]}
+       ELSE {}
+
 GenInit == /\ PickScenario
            /\ state = InitState(scen)
-           /\ variant \in IF AllVariants THEN Variants ELSE {VariantNo(Rot(scen))}
+           /\ variant \in VariantsFor(scen)
 GenNext == UNCHANGED <<scen, state, variant>>
 GenSpec == GenInit /\ [][GenNext]_<<scen, state, variant>>
 
 Emit ==
   PrintT(<<"CASE", ToJson(
     [pages |-> scen.pages, q |-> scen.q, kind |-> scen.kind, fail |-> scen.fail, mode |-> scen.mode,
-     start |-> scen.start, prep |-> variant.prep, skip |-> variant.skip, size |-> SizeOf(scen),
+     start |-> scen.start, plan |-> scen.plan, prep |-> variant.prep, skip |-> variant.skip,
+     rebind |-> variant.rebind, size |-> SizeOf(scen),
      exp |-> [reqs |-> ExpReqs(scen), rows |-> ExpRows(scen), delivered |-> ExpDelivered(scen),
-              ended |-> ExpEnd(scen), err |-> ExpErr(scen), exposed |-> ExpExposed(scen)]])>>)
+              ended |-> ExpEnd(scen), err |-> ExpErr(scen), exposed |-> ExpExposed(scen),
+              execs |-> [e \in 1 .. Len(scen.plan) |->
+                          [stop |-> StopOf(scen, e), rows |-> ExpExecRows(scen, e), ended |-> ExpExecEnd(scen, e)]]]])>>)
 =============================================================================
